@@ -144,6 +144,13 @@ def gen_inflate(tier, rng):
             scns.append(igz.scenario(len(scns), "inflate", list(pst), wrap=0, calls=[[n, x, 0, 0], [0, 1 << 17, 0, 0]], tail_ai=n, tail_ao=1 << 17, cap=4000, mem=j % 3, meta={"family": "packed-big-output-at-block-end", "salt": j % 6})); j += 1
     for cut in range(off - 16, off + 4):
         scns.append(igz.scenario(len(scns), "inflate", list(pst), wrap=0, calls=[[cut, 1 << 17, 0, 0], [n - cut, 1 << 17, 0, 0]], tail_ai=n, tail_ao=1 << 17, cap=4000, mem=j % 3, meta={"family": "packed-big-input-cut", "salt": j % 6})); j += 1
+    # long matches (258 bytes) straddling the end of the 64 KiB staging buffer while the caller has drained a little more than 32 KiB of it:
+    # all input at once, first output buffer 32768 + j bytes, then large ones
+    per = bytes(igz.corpus(rng, "text", 300)); lm = per * (72000 // 300)
+    c9 = zlib.compressobj(9, zlib.DEFLATED, -15); lst = c9.compress(lm) + c9.flush(); n = len(lst)
+    for jj in range(0, 300, 3 if tier == "quick" else 1):
+        scns.append(igz.scenario(len(scns), "inflate", list(lst), wrap=0, calls=[[n, 32768 + jj, 0, 0], [0, 1 << 17, 0, 0], [0, 1 << 17, 0, 0]], tail_ai=n, tail_ao=1 << 17, cap=4000, mem=jj % 3,
+                                 meta={"family": "long-match-across-staging-end", "salt": jj % 6}))
     return scns
 
 def run(tier, replay=None):
